@@ -44,6 +44,12 @@ class Transform(data_input.DataInputAbstract, Numbered_MCNP_Object):
                 )
             # the entries after shortcut expansion (one per value), not the syntax nodes
             words = list(self._tree["data"])
+            for word in words:
+                if not isinstance(word.value, (int, float)):
+                    raise MalformedInputError(
+                        input,
+                        f"A transform input holds numbers only; {word.value} was given",
+                    )
             if len(words) < 3:
                 raise MalformedInputError(input, f"Not enough entries were provided")
             # 3 for the displacement, 9 for the rotation, 1 for the direction
